@@ -2,4 +2,5 @@ open Model
 let () = Driver.main [
   { Driver.name = "cubic"; run = cubic_run; judge = cubic_judge };
   { Driver.name = "bbr"; run = bbr_run; judge = bbr_judge };
+  { Driver.name = "cubic_gate"; run = cubic_run; judge = cubic_gate_judge };
 ]
